@@ -16,11 +16,11 @@ Fixpoint den (x : src) : text :=
   match x with
   | SStr s => s                                   (* a literal is its characters *)
   | SFile r => read_text r                        (* a text file / program output is what a text-mode read gives *)
-  | SProg out _ => read_text out
+  | SProg _ g _ ins => read_text (g (concat (map den ins)))   (* the program's output for the text on its stdin *)
   | SLines f _ _ _ u => concat (f (lines_lf (den u)))    (* a transformer works on the lines of the operand's text *)
   | SFilter f _ u => concat (f (lines_lf (den u)))
   | SRun g _ u => read_text (g (den u))           (* the program reads the text as a file, its output is read as a text file *)
-  | SConcat _ p1 p2 => den p1 ++ den p2
+  | SConcat _ ps => concat (map den ps)
   end.
 
 (** ** What one observation must be, given the text [t] the source denotes *)
@@ -76,11 +76,15 @@ Definition verdicts_agree (vs : list (option bool)) : bool :=
   | Some v :: vs' => forallb (obool_eqb (Some v)) vs'
   end.
 
-(** The three kinds of source a text can come from. *)
-Definition kinds (t : text) : list src := [SStr t; SFile t; SProg t cs0].
+(** The three kinds of source a text can come from: a literal, a file, the output of a program -
+    captured from stdout/stderr through the descriptor ([PFd]) or through a file of its own ([PFile]),
+    the program printing the text itself or copying it from its stdin ([sin]). *)
+Definition prog_kind (k : pkind) (sin : bool) (t : text) : src :=
+  if sin then SProg k g_cat cs0 [SStr t] else SProg k (g_const t) cs0 [].
+Definition kinds (k : pkind) (sin : bool) (t : text) : list src := [SStr t; SFile t; prog_kind k sin t].
 
-Definition kind_verdicts (b extra : N) (te ta : text) (tr : option trans) : list (option bool) :=
-  flat_map (fun e => map (fun x => fst (m_eval b extra (MEquals e) (build x tr))) (kinds ta)) (kinds te).
+Definition kind_verdicts (k : pkind) (sin : bool) (b extra : N) (te ta : text) (tr : option trans) : list (option bool) :=
+  flat_map (fun e => map (fun x => fst (m_eval b extra (MEquals e) (build x tr))) (kinds k sin ta)) (kinds k sin te).
 
 (** ** Cases of the correspondence check *)
 Inductive case :=
@@ -89,7 +93,7 @@ Inductive case :=
        order; [observed] is what the real objects returned *)
 | CaseVerdict (base : src) (t : option trans) (b extra : N) (m : smatcher) (observed : list (option bool))
     (* the real verdicts ([None] = raised) of the [variants] of [m], each applied to a fresh source *)
-| CaseKinds (te ta : text) (tr : option trans) (b extra : N) (observed : list (option bool)).
+| CaseKinds (k : pkind) (sin : bool) (te ta : text) (tr : option trans) (b extra : N) (observed : list (option bool)).
     (* the real verdicts of [equals EXPECTED] for expected text [te] and actual text [ta] (transformed
        by [tr]), each coming from a literal, a file, a program's output: 9 pairs *)
 
@@ -103,7 +107,7 @@ Definition check_case (c : case) : bool * bool :=
       let x := build base t in
       ( list_eqb obool_eqb (map (fun m' => fst (m_eval b extra m' x)) (variants m)) observed,
         Nat.eqb (length observed) (length (variants m)) && verdicts_agree observed )
-  | CaseKinds te ta tr b extra observed =>
-      ( list_eqb obool_eqb (kind_verdicts b extra te ta tr) observed,
+  | CaseKinds k sin te ta tr b extra observed =>
+      ( list_eqb obool_eqb (kind_verdicts k sin b extra te ta tr) observed,
         Nat.eqb (length observed) 9 && verdicts_agree observed )
   end.
